@@ -151,6 +151,26 @@ def check(ctx) -> Result:
     loops = [n for n in walk_no_nested(bp.node) if isinstance(n, ast.For) and "circuit_spec" in src(n.iter)]
     res.add(bool(loops) and all("self" in src(n.iter) for n in loops), "LB-build-on-read", "Circuit._build_process", bp.site(), bp.qualname, "compiles from the live component list", "does not iterate the live component list", construct="Circuit._build_process")
 
+    # ---- Parameter objects are shared, never cloned: a deep copy of components clones the Parameters they hold
+    #      and the circuit stops following the user's objects.  Allowed: the frozen copy (values are substituted
+    #      right after) and the read-only copy handed to the display code.
+    from ..rules import rw_layering
+    allowed = {"Circuit.copy", "Circuit._get_circuit_spec"}
+    nd = 0
+    for fi_ in ctx.ix.all_functions():
+        if not fi_.rel.startswith("lightworks/sdk/circuit/"):
+            continue
+        for c in walk_no_nested(fi_.node):
+            if isinstance(c, ast.Call) and src(c.func).split(".")[-1] == "deepcopy":
+                nd += 1
+                if fi_.qualname in allowed:
+                    okf = fi_.qualname != "Circuit.copy" or "_freeze_params" in src(fi_.node)
+                    res.add(okf, "LB-parameters-never-cloned", f"{fi_.qualname}:deepcopy", fi_.site(c), fi_.qualname, "deep copy is immediately frozen / read-only", "deep copy in Circuit.copy is no longer followed by _freeze_params", construct=src(c))
+                else:
+                    res.bad("LB-parameters-never-cloned", f"{fi_.qualname}:deepcopy", fi_.site(c), fi_.qualname,
+                            f"`{src(c)[:60]}` deep-copies circuit components and with them the Parameter objects they hold; the result is stored back into a live circuit, which then no longer follows the user's parameters (updates are ignored, get_all_params returns clones)",
+                            construct=src(c)[:120])
+    res.floor("deepcopy sites in sdk/circuit", nd, 2)
     # ---- _build wraps every exception
     b = ctx.func(CIRC, "Circuit._build")
     tries = [n for n in walk_no_nested(b.node) if isinstance(n, ast.Try)]
